@@ -1475,6 +1475,13 @@ def lib_vmap(ex, args, kwargs, pc):
     """vmap of an opaque per-point residual: the result at row i is an uninterpreted function of the row (and of nothing
     else: loss / network / parameters are fixed during one refinement step)"""
     f = args[0]
+    # which method of a dynamic loss the mapped function calls (the residual of the training loss is `evaluate`: it applies
+    # heterogeneous parameters before calling the user's `equation`)
+    node = getattr(f, "node", None)
+    if node is not None:
+        for sub in ast.walk(node):
+            if isinstance(sub, ast.Call) and isinstance(sub.func, ast.Attribute) and "dynamic_loss" in ast.unparse(sub.func.value):
+                ex.residual_methods = getattr(ex, "residual_methods", []) + [sub.func.attr]
     cols = getattr(ex, "residual_cols", None)      # None: scalar residual per row (rank 1); k: (rows, k) residual vectors
     if cols is None:
         res = fresh_fun("residual", z3.IntSort(), z3.RealSort())
@@ -1669,6 +1676,33 @@ def lib_argmin(ex, args, kwargs, pc):
     ex.extra_axioms = getattr(ex, "extra_axioms", []) + [
         z3.Or(z3.And(allt, r == 0), z3.And(r >= 0, r < nn_, z3.Not(zbool(a.elem(r))), before))]
     return r
+
+
+def lib_where(ex, args, kwargs, pc):
+    """jnp.where(cond, x, y), elementwise with numpy broadcasting on trailing axes"""
+    if len(args) != 3:
+        raise Unsupported("jnp.where with one argument")
+    c_, x, y = args
+    arrs = [v for v in (c_, x, y) if isinstance(v, SArr)]
+    if not arrs:
+        return ite(ex.truth(c_), x, y)
+    big = max(arrs, key=lambda a: len(a.shape))
+    rank = len(big.shape)
+
+    def at(v, i):
+        if isinstance(v, SArr):
+            off = rank - len(v.shape)
+            return v.elem(*[0 if (concrete(v.shape[k]) and v.shape[k] == 1) else i[off + k] for k in range(len(v.shape))])
+        return v
+    shape = list(big.shape)
+    for v in arrs:
+        off = rank - len(v.shape)
+        for k, sx in enumerate(v.shape):
+            if concrete(shape[off + k]) and shape[off + k] == 1:
+                shape[off + k] = sx
+    dt = "real" if any(isinstance(v, SArr) and v.dtype == "real" for v in (x, y)) or any(isinstance(v, float) for v in (x, y)) else (
+        x.dtype if isinstance(x, SArr) else (y.dtype if isinstance(y, SArr) else "int"))
+    return SArr(tuple(shape), lambda *i: ite(zbool(at(c_, i)), at(x, i), at(y, i)), dt)
 
 
 def lib_finfo(ex, args, kwargs, pc):
@@ -1928,6 +1962,7 @@ LIB = {
     "jnp.zeros": lib_zeros,
     "jnp.ones": lib_ones,
     "jnp.iinfo": lib_iinfo,
+    "jnp.where": lib_where,
     "jnp.argmin": lib_argmin,
     "jnp.floor": lib_floor,
     "jnp.broadcast_to": lib_broadcast_to,
